@@ -21,6 +21,7 @@ RSt(st) == /\ \A k \in Res : table'[Q][k] = st.table[k] /\ key'[k].owner = st.ow
            /\ rst'[Q] = st.state
            /\ inval'[Q] = Range(st.skip)
            /\ st.pending = (IF rst'[Q] = "watching" THEN rev' - from'[Q] + 1 ELSE 0)
+           /\ st.compacted = compacted'
 
 TInit == Init /\ l = 1 /\ skipping = FALSE /\ TLCSet(7, 0)
 TReset == /\ l <= Len(TraceLog) /\ E.ev = "Reset" /\ l' = l + 1 /\ skipping' = FALSE
@@ -32,9 +33,10 @@ TReset == /\ l <= Len(TraceLog) /\ E.ev = "Reset" /\ l' = l + 1 /\ skipping' = F
           /\ rpc' = [b \in Brokers |-> [r \in Res |-> "idle"]] /\ rsess' = [b \in Brokers |-> [r \in Res |-> 0]]
           /\ rdel' = NoDel /\ cnt' = Cnt0 /\ rev' = 0 /\ elog' = <<>>
           /\ rst' = [q \in Routers |-> "init"] /\ table' = [q \in Routers |-> [r \in Res |-> ""]]
-          /\ revL' = [q \in Routers |-> 0] /\ from' = [q \in Routers |-> 0] /\ inval' = [q \in Routers |-> {}]
+          /\ revL' = [q \in Routers |-> 0] /\ from' = [q \in Routers |-> 0] /\ inval' = [q \in Routers |-> {}] /\ compacted' = 0
           /\ hist' = <<>>
 TAbort == /\ l <= Len(TraceLog) /\ ~skipping /\ E.ev = "Abort" /\ l' = l + 1 /\ skipping' = TRUE /\ UNCHANGED vars
+TNote == Cur("Note") /\ UNCHANGED vars
 TSkip == /\ l <= Len(TraceLog) /\ skipping /\ E.ev # "Reset" /\ l' = l + 1 /\ UNCHANGED <<vars, skipping>>
 
 TAcqSession == Cur("AcqSession") /\ AcqSession(E.b, E.r) /\ E.res = "parked" /\ LSt(E.st)
@@ -54,17 +56,19 @@ TCrash == Cur("Crash") /\ Crash(E.b) /\ LSt(E.st)
 
 TAdminPut == Cur("AdminPut") /\ AdminPut(E.k, E.v) /\ RSt(E.st)
 TAdminDel == Cur("AdminDel") /\ AdminDel(E.k) /\ RSt(E.st)
+TAdminDelAll == Cur("AdminDelAll") /\ AdminDelAll /\ RSt(E.st)
+TCompact == Cur("Compact") /\ Compact /\ RSt(E.st)
 TLoad == Cur("Load") /\ Load(Q) /\ RSt(E.st)
-TWatchStart == Cur("WatchStart") /\ WatchStart(Q) /\ from'[Q] = E.from /\ RSt(E.st)
+TWatchStart == Cur("WatchStart") /\ WatchStart(Q) /\ E.failed = (rst'[Q] = "closed") /\ (~E.failed => from'[Q] = E.from) /\ RSt(E.st)
 TDeliver == Cur("Deliver") /\ Deliver(Q) /\ E.evrev = from[Q] /\ RSt(E.st)
 TWatchClose == Cur("WatchClose") /\ WatchClose(Q) /\ RSt(E.st)
 TInvalidate == Cur("Invalidate") /\ Invalidate(Q, E.k) /\ RSt(E.st)
 
 Consumed == TLCSet(7, IF TLCGet(7) < l THEN l ELSE TLCGet(7))   \* high-water mark of consumed lines
-TNext == (\/ TReset \/ TAbort \/ TSkip
+TNext == (\/ TReset \/ TAbort \/ TSkip \/ TNote
           \/ TAcqSession \/ TAcqTxn \/ TAcqReacq \/ TAcqCommit \/ TAcqFail \/ TRelLocal \/ TRelDelete
           \/ TServerExpire \/ TSessDone \/ TMonitor \/ TReleaseAll \/ TCrash
-          \/ TAdminPut \/ TAdminDel \/ TLoad \/ TWatchStart \/ TDeliver \/ TWatchClose \/ TInvalidate) /\ Consumed
+          \/ TAdminPut \/ TAdminDel \/ TAdminDelAll \/ TCompact \/ TLoad \/ TWatchStart \/ TDeliver \/ TWatchClose \/ TInvalidate) /\ Consumed
 TSpec == TInit /\ [][TNext]_tvars
 Reached == PrintT(<<"CONF", ToJson([reached |-> TLCGet(7), total |-> Len(TraceLog)])>>)
 ====
